@@ -579,6 +579,8 @@ def _append_nans(result, axis, first=False):
 
     axis: `int`
     """
+    if result.dtype.kind in ('i', 'u', 'b'):
+        result = result.astype(float) # integers have no NaN
     nan_slice = np.empty_like(result.take([0], axis=axis)) # make a slice ...
     nan_slice.fill(np.nan) # ...filled with NaNs
 
